@@ -53,18 +53,22 @@ func (p *Program) Func(pkg, name string) *ssa.Function {
 			return nil
 		}
 		T := o.Type()
+		var synthetic *ssa.Function
 		for _, t := range []types.Type{types.NewPointer(T), T} {
 			ms := p.Prog.MethodSets.MethodSet(t)
 			for i := 0; i < ms.Len(); i++ {
 				sel := ms.At(i)
 				if sel.Obj().Name() == mn {
 					if f := p.Prog.MethodValue(sel); f != nil {
-						return f
+						if f.Synthetic == "" {
+							return f
+						}
+						synthetic = f
 					}
 				}
 			}
 		}
-		return nil
+		return synthetic
 	}
 	return sp.Func(name)
 }
